@@ -223,7 +223,7 @@ def storedTankDemand {α : Type} (sub : α → α → α) (inflow outflow leak :
 end Wntr.Rows
 
 /-! ### C08: `add_leak` / `remove_leak` / the two time controls, as a state machine on one node
-(mirrors `Junction/Tank.add_leak`, `remove_leak` (REPAIRED: also resets `_leak_status`), `ControlAction(node,'leak_status',b)`,
+(mirrors `Junction/Tank.add_leak`, `add_leak` (REPAIRED: refuses before changing anything), `remove_leak` (REPAIRED: also resets `_leak_status`), `ControlAction(node,'leak_status',b)`,
 `WaterNetworkModel.add_control` raising ValueError on a duplicate name) -/
 namespace Wntr.Rows
 
@@ -249,19 +249,17 @@ inductive Outcome where
 
 def LeakState.step (s : LeakState) : LeakOp → LeakState × Outcome
   | .add area cd start stop =>
-    let s1 := { s with leak := true, area := area, cd := cd }
-    match start with
-    | some t =>
-      if s1.startCtl.isSome then (s1, .valueError)      -- add_control: name already used (state already updated)
-      else
-        let s2 := { s1 with startCtl := some t }
-        match stop with
-        | some u => if s2.endCtl.isSome then (s2, .valueError) else ({ s2 with endCtl := some u }, .ok)
-        | none => (s2, .ok)
-    | none =>
-      match stop with
-      | some u => if s1.endCtl.isSome then (s1, .valueError) else ({ s1 with endCtl := some u }, .ok)
-      | none => (s1, .ok)
+    -- REPAIRED (/repo 943c6495): both control names are checked before anything is changed
+    if (start.isSome && s.startCtl.isSome) || (stop.isSome && s.endCtl.isSome) then (s, .valueError)
+    else
+      let s1 := { s with leak := true, area := area, cd := cd }
+      let s2 := match start with
+        | some t => { s1 with startCtl := some t }
+        | none => s1
+      let s3 := match stop with
+        | some u => { s2 with endCtl := some u }
+        | none => s2
+      (s3, .ok)
   | .remove => ({ s with leak := false, status := false, startCtl := none, endCtl := none }, .ok)
   | .fireStart => (if s.startCtl.isSome then { s with status := true } else s, .ok)
   | .fireEnd => (if s.endCtl.isSome then { s with status := false } else s, .ok)
